@@ -193,6 +193,10 @@ func runFlushCase(c flushCase, st *flushStats) *fail {
 				goto events
 			}
 			if time.Since(waitStart) > 20*time.Second {
+				if c.Reuse {
+					// the tag was free: the reply of the earlier request that carried it had arrived
+					return failf("request-not-served:tag-reused-after-its-reply", "%s was sent on a tag whose earlier reply had been delivered (the goroutine that wrote it was still inside the transport Write) and was neither served nor answered within 20 s: %s", target, desc())
+				}
 				return failf("harness-gate", "HARNESS-ERROR target %s never reached backend call %d", target, holdAt)
 			}
 		}
